@@ -94,7 +94,7 @@ def OkAllowed (cfg : Cfg) (st : St) (e : Ev) (s : Sid) (o : Outcome) : Prop :=
   ∃ rid b r, st.phase = .sending rid b ∧ (e = .produceDone rid r ∨ ∃ w m, e = .stop w (some r) m) ∧
     validResult b r = true ∧
     ((∃ resp, o = .ok resp ∧ resp ∈ respsOf r ∧ resp.error = 0 ∧ s ∈ b.sidsOf resp.tp) ∨
-     (o = .okNone ∧ cfg.acks = producerAckNotRequired ∧ (r = .none ∨ r = .responses []) ∧ s ∈ b.allSids))
+     (o = .okNone ∧ cfg.acks = producerAckNotRequired ∧ s ∈ b.allSids))
 
 theorem OkAllowed.err (cfg : Cfg) (st : St) (e : Ev) (s : Sid) (k : ErrKind) : OkAllowed cfg st e s (.err k) :=
   Or.inl ⟨k, rfl⟩
